@@ -65,6 +65,9 @@ def keys_of(f):
 
 
 def replay_case(case):
+    if case.get("inproc"):
+        from props import _inproc
+        return _inproc.replay(case)
     exe = core.build("rel")
     return eval_bytes(exe, bytes.fromhex(case["data_hex"]), case, core.Stats(), case.get("tags", ()), "replay")
 
@@ -89,13 +92,20 @@ def run(tier, seed):
     files += _dec.tiny_files(exe, seed, 6 if tier == "quick" else 30)
     n = 3000 if tier == "quick" else 80000
     stats, fails = core.hyp_search(lambda: _dec.case_strategy(len(files)), make_hyp_eval(exe, files), n, seed)
-    try:
-        from props import _gen
-        s2, f2 = _gen.run_c05(exe, tier, seed, eval_bytes)
-        stats.merge(s2)
-        fails += f2
-    except ImportError:
-        pass
+    from props import _gen
+    s2, f2 = _gen.run_c05(exe, tier, seed, eval_bytes)
+    stats.merge(s2)
+    fails += f2
+    # in-process differential (parse/retrieve/decode/emit driven as expand.c drives them, against bzkit): catalogue
+    # defects and structure-aware raw bytes under rapidcheck; a coverage-guided libFuzzer campaign in the thorough tier
+    from props import _inproc
+    _inproc.add(stats, fails, "decode_defect", seed + 1, 8000 if tier == "quick" else 800000)
+    _inproc.add(stats, fails, "decode_raw", seed + 1, 60000 if tier == "quick" else 6000000)
+    if tier != "quick":
+        fz = _inproc.fuzz("decode_raw", seed, runs=20000000, max_total_time=900)
+        stats.extra["libfuzzer-execs"] += fz["execs"]
+        stats.extra["libfuzzer-corpus"] += fz.get("corpus", 0)
+        fails += fz["crashes"]
     oc = core.conclude(PID, fails, replay_case, keys_of)
     core.write_evidence(PID, tier, seed, "exploration", stats, RULE, time.time() - t0,
                         violations=len(oc.violations),
